@@ -11,6 +11,31 @@ class AnchorMissing(Exception):
     """An anchor (function, field, call site ...) named by a rule cannot be resolved."""
 
 
+def _records(path):
+    """parsed records of one fact file; a marshal side-car (same directory, written atomically) avoids
+    re-parsing 28 MB of JSON on every check of an unchanged tree"""
+    import marshal
+    side = path + ".marshal"
+    try:
+        if os.path.getmtime(side) >= os.path.getmtime(path):
+            with open(side, "rb") as fh:
+                return marshal.load(fh)
+    except (OSError, ValueError, EOFError, TypeError):
+        pass
+    recs = []
+    with open(path) as fh:
+        for line in fh:
+            recs.append(json.loads(line))
+    try:
+        tmp = side + ".%d.tmp" % os.getpid()
+        with open(tmp, "wb") as fh:
+            marshal.dump(recs, fh)
+        os.replace(tmp, side)
+    except OSError:
+        pass
+    return recs
+
+
 # ---------------------------------------------------------------- operands / places helpers
 
 def op_place(op):
@@ -293,9 +318,8 @@ class Facts:
                 continue
             nb = 0
             complete = False
-            with open(os.path.join(factdir, f)) as fh:
-                for line in fh:
-                    d = json.loads(line)
+            for d in _records(os.path.join(factdir, f)):
+                if True:
                     t = d["t"]
                     if t == "body":
                         b = Body(d, cname)
